@@ -26,6 +26,7 @@ PACKS = {
     "iter": dict(iterative=True),
     "itersyminf": dict(iterative=True, sym=True, inf=True),
     "pv2": dict(prefix_verified=2),
+    "needrev": dict(parent_factory=True, expand=False, empty_prefix_verified=True),
 }
 STATS = {
     "s0": (),
